@@ -6,6 +6,7 @@ mod c16;
 mod sim;
 mod hist;
 mod adl;
+mod yib;
 mod rtx;
 mod xw;
 mod c01;
